@@ -129,13 +129,17 @@ class ListsLeg(object):
                         start = max(1, prev["start"] - draw(st.integers(1, 60)))
                 attrs = {}
                 if draw(st.integers(0, 3)) > 0:
-                    attrs["ID"] = ["e%d" % i]
+                    attrs["ID"] = [draw(st.sampled_from(["e%d" % i, str(8 + i), str(8 + i)]))]  # also purely numeric ids (9, 10, ...)
                 for k in draw(st.lists(st.sampled_from(["Parent", "exon_number", "note", "k"]), unique=True, max_size=3)):
                     attrs[k] = draw(st.lists(val, min_size=1, max_size=3))
                 feats.append({"seqid": seqid, "start": start, "end": start + length,
                               "ft": draw(st.sampled_from(["exon", "exon", "CDS", "gene"])),
                               "strand": draw(st.sampled_from(["+", "+", "-", "."])), "attrs": attrs})
             upd = draw(st.sampled_from([None, None, {"tag": ["t"]}, {"note": ["replaced"], "extra": ["1", "2"]}]))
+            off = draw(st.sampled_from([0, 0, 131072 - 40, 131072 - 10, 1048576 - 25]))  # near a 128 kb / 1 Mb bin edge
+            for f in feats:
+                f["start"] += off
+                f["end"] += off
             return {"features": feats, "new_featuretype": draw(st.sampled_from([None, None, "intron", "gap"])),
                     "merge_attributes": draw(st.integers(0, 3)) > 0, "numeric_sort": draw(st.booleans()),
                     "update_attributes": upd, "as_generator": draw(st.booleans())}
@@ -194,6 +198,12 @@ class ListsLeg(object):
             if not attrs_match(a[5], b[5], case["numeric_sort"]):
                 return Failure("gap %d has attributes %r, expected %r (numeric_sort=%s)" % (i, a[5], b[5], case["numeric_sort"]),
                                sig={"kind": "attributes"})
+        import gffutils.bins as _bins
+
+        for f in got:
+            if f.bin != _bins.bins(f.start, f.end):
+                return Failure("gap %d..%d carries bin %r, bins() gives %r" % (f.start, f.end, f.bin, _bins.bins(f.start, f.end)),
+                               sig={"kind": "gap-bin"})
         after = [(str(f), _as_tuple(f)) for f in feats]
         if after != before:
             return Failure("interfeatures modified its input features", sig={"kind": "inputs-modified"})
@@ -218,7 +228,7 @@ class IntronsLeg(object):
                 txs = []
                 for ti in range(draw(st.integers(1, 3))):
                     ne = draw(st.integers(1, 6))
-                    pos = draw(st.integers(1, 200))
+                    pos = draw(st.one_of(st.integers(1, 200), st.sampled_from([131072 - 60, 131072 - 5, 1048576 - 30])))
                     exons = []
                     for ei in range(ne):
                         length = draw(st.integers(0, 50))
@@ -258,9 +268,9 @@ class IntronsLeg(object):
                 for k in t["order"]:
                     s, e = t["exons"][k]
                     eid = "%s.e%d" % (tid, k)
-                    attrs = {"ID": [eid], "Parent": [tid], "exon_number": [str(k + 1)]}
+                    attrs = {"ID": [eid], "Parent": [tid], "exon_number": [str(k + 8)]}
                     lines.append("\t".join([g["seqid"], "src", "exon", str(s), str(e), ".", t["strand"], ".",
-                                            "ID=%s;Parent=%s;exon_number=%d" % (eid, tid, k + 1)]))
+                                            "ID=%s;Parent=%s;exon_number=%d" % (eid, tid, k + 8)]))
                     exs.append({"seqid": g["seqid"], "start": s, "end": e, "ft": "exon", "strand": t["strand"], "attrs": attrs})
                 exs.sort(key=lambda x: x["start"])
                 txmodel.append({"id": tid, "type": t["type"], "strand": t["strand"], "exons": exs})
@@ -310,6 +320,36 @@ class IntronsLeg(object):
                            sig={"kind": case["mode"], "geometry": geom})
         if dbsnap.snapshot(db) != before:
             return Failure("%s modified the database" % case["mode"], sig={"kind": "db-modified"})
+        if case["mode"] == "introns" and case["merge_attributes"] and case.get("file_db"):
+            # an exon is replaced by one with other attributes (same id, same place): the next call reflects them
+            tgt = next((t for t in txs if len(t["exons"]) >= 2), None)
+            if tgt is not None:
+                from gffutils.feature import feature_from_line as _ffl
+
+                ex = tgt["exons"][0]
+                ex["attrs"] = dict(ex["attrs"], exon_number=["77"], note=["changed"])
+                db.update([_ffl("\t".join([ex["seqid"], "src", "exon", str(ex["start"]), str(ex["end"]), ".", ex["strand"], ".",
+                                           "ID=%s;Parent=%s;exon_number=77;note=changed" % (ex["attrs"]["ID"][0], ex["attrs"]["Parent"][0])]))],
+                          merge_strategy="replace", make_backup=False)
+                want_r = []
+                for t in txs:
+                    want_r += [_exp_tuple(x) for x in ref_inter(t["exons"], "intron", case["merge_attributes"], case["numeric_sort"], None)]
+                got_r = [_as_tuple(f) for f in db.create_introns(**kw)]
+                if sorted(map(key, got_r)) != sorted(map(key, want_r)):
+                    return Failure("create_introns after an exon was replaced (update, merge_strategy='replace') still uses its old attributes",
+                                   sig={"kind": "introns-stale-after-replace"})
+        if case["mode"] == "introns":
+            # introns written back with update() are found by bin-filtered queries where they lie
+            introns = list(db.create_introns(**kw))
+            if introns and case["merge_attributes"]:
+                db.update(introns, make_backup=False, merge_strategy="create_unique")
+                for f in introns:
+                    hits = [x for x in db.all_features(limit=(f.seqid, f.start, f.end), completely_within=True, featuretype="intron")
+                            if (x.start, x.end) == (f.start, f.end)]
+                    if not hits:
+                        return Failure("an intron %s:%d-%d stored with update() is not returned by all_features(limit=its own interval, completely_within=True)"
+                                       % (f.seqid, f.start, f.end), sig={"kind": "stored-intron-not-found"})
+                db.delete([x.id for x in db.features_of_type("intron")], make_backup=False)
         # the same call again after an exon was deleted through the same handle reflects the new exon set
         victim = None
         for t in txs:
